@@ -12,7 +12,7 @@
                + 4 * detail   (bit1: clause + 16*entry, see [mon_step]; else 1000 + step). *)
 From Coq Require Import DecimalString.
 From Srtla Require Import Base Constants.
-From Srtla Require Export Json Control ControlSpec.
+From Srtla Require Export Json Control ControlSpec ControlConc.
 Local Open Scope string_scope.
 Local Open Scope Z_scope.
 
@@ -327,8 +327,136 @@ Inductive cobs := Same (o : obs1) | Ob2 (a b : obs1).
 Definition expand (c : cobs) : obs :=
   match c with Same o => Ob o o | Ob2 a b => Ob a b end.
 
+(** ---- concurrent runs: several threads dispatch their programs on ONE shared configuration
+    (stdin entry, no stats provider, no critical window) while reader threads take snapshots.
+    What must hold whatever the interleaving (clauses 64+n: response clause n; 80 a status shows
+    a value nobody stored; 81 a snapshot shows a value nobody stored or a timeout outside
+    1000..60000; 82 the final value of a field is not the last write of any thread; 83 a
+    thread's own write to a field nobody else writes is not visible in its later status). *)
+Definition settings_of (p : list line_outcome) : list setting :=
+  flat_map (fun l => match spec_setting l with Some s => [s] | None => [] end) p.
+
+Definition modes_in (ss : list setting) : list mode := flat_map (fun s => match s with SMode m => [m] | _ => [] end) ss.
+Definition quals_in (ss : list setting) : list bool := flat_map (fun s => match s with SQuality b => [b] | _ => [] end) ss.
+Definition stalls_in (ss : list setting) : list bool := flat_map (fun s => match s with SStall b => [b] | _ => [] end) ss.
+Definition tmos_in (ss : list setting) : list Z := flat_map (fun s => match s with STimeout z => [z] | _ => [] end) ss.
+
+Definition cfg_allowed (c0 : config) (ss : list setting) (c : config) : bool :=
+  existsb (mode_eqb (c_mode c)) (c_mode c0 :: modes_in ss) &&
+  existsb (Bool.eqb (c_quality c)) (c_quality c0 :: quals_in ss) &&
+  existsb (Bool.eqb (c_stall c)) (c_stall c0 :: stalls_in ss) &&
+  existsb (Z.eqb (c_timeout c)) (c_timeout c0 :: tmos_in ss) &&
+  (c_mif c =? c_mif c0) && (c_stale c =? c_stale c0) && in_timeout_range c.
+
+Definition json_in (o : option json) (l : list json) : bool :=
+  match o with Some x => existsb (json_eqb x) l | None => false end.
+Definition status_allowed (c0 : config) (ss : list setting) (v : json) : bool :=
+  json_in (vget v "mode") (map (fun m => JStr (mode_str m)) (c_mode c0 :: modes_in ss)) &&
+  json_in (vget v "quality_enabled") (map JBool (c_quality c0 :: quals_in ss)) &&
+  json_in (vget v "stall_deselect") (map JBool (c_stall c0 :: stalls_in ss)) &&
+  json_in (vget v "conn_timeout_ms") (map JInt (c_timeout c0 :: tmos_in ss)) &&
+  json_in (vget v "stall_min_in_flight") [JInt (c_mif c0)] &&
+  json_in (vget v "stall_ack_stale_ms") [JInt (c_stale c0)].
+
+Definition last_opt {A} (l : list A) : option A := match rev l with x :: _ => Some x | [] => None end.
+Definition lasts {A} (sel : list setting -> list A) (progs : list (list line_outcome)) : list A :=
+  flat_map (fun p => match last_opt (sel (settings_of p)) with Some x => [x] | None => [] end) progs.
+Definition final_field {A} (eqb : A -> A -> bool) (init final : A) (ls : list A) : bool :=
+  match ls with [] => eqb final init | _ => existsb (eqb final) ls end.
+Definition final_ok (c0 : config) (progs : list (list line_outcome)) (c : config) : bool :=
+  final_field mode_eqb (c_mode c0) (c_mode c) (lasts modes_in progs) &&
+  final_field Bool.eqb (c_quality c0) (c_quality c) (lasts quals_in progs) &&
+  final_field Bool.eqb (c_stall c0) (c_stall c) (lasts stalls_in progs) &&
+  final_field Z.eqb (c_timeout c0) (c_timeout c) (lasts tmos_in progs) &&
+  (c_mif c =? c_mif c0) && (c_stale c =? c_stale c0).
+
+(** tracker of one thread, restricted to the fields no other thread writes *)
+Definition is_nil {A} (l : list A) : bool := match l with [] => true | _ => false end.
+Definition own_start (c0 : config) (others : list setting) : tracked :=
+  {| tk_mode := if is_nil (modes_in others) then Some (c_mode c0) else None;
+     tk_quality := if is_nil (quals_in others) then Some (c_quality c0) else None;
+     tk_stall := if is_nil (stalls_in others) then Some (c_stall c0) else None;
+     tk_timeout := if is_nil (tmos_in others) then Some (c_timeout c0) else None |}.
+Definition own_track (others : list setting) (t : tracked) (s : option setting) : tracked :=
+  match s with
+  | Some (SMode _) => if is_nil (modes_in others) then track t s else t
+  | Some (SQuality _) => if is_nil (quals_in others) then track t s else t
+  | Some (SStall _) => if is_nil (stalls_in others) then track t s else t
+  | Some (STimeout _) => if is_nil (tmos_in others) then track t s else t
+  | None => t
+  end.
+
+Definition result_of_resp (r : option json) : option json :=
+  match r with
+  | Some x => match parse_response x with Some (_, RResult v) => Some v | _ => None end
+  | None => None
+  end.
+
+Fixpoint mon_thread (c0 : config) (all others : list setting) (t : tracked)
+         (prog : list line_outcome) (resps : list (option json)) : N :=
+  match prog, resps with
+  | [], [] => 0%N
+  | l :: prog', r :: resps' =>
+      match mon_response Stdin l tracked_none r with
+      | 0%N =>
+          let t' := own_track others t (spec_setting l) in
+          let st := match spec_method l, result_of_resp r with
+                    | Some (me, _), Some v =>
+                        if String.eqb me "get_status" then
+                          if negb (status_allowed c0 all v) then 80%N
+                          else if negb (status_shows t' v) then 83%N else 0%N
+                        else 0%N
+                    | _, _ => 0%N
+                    end in
+          match st with 0%N => mon_thread c0 all others t' prog' resps' | n => n end
+      | n => (64 + n)%N
+      end
+  | _, _ => 15%N
+  end.
+
+Fixpoint mon_threads (c0 : config) (all : list setting) (before after : list (list line_outcome))
+         (resps : list (list (option json))) : N :=
+  match after, resps with
+  | [], [] => 0%N
+  | p :: after', r :: resps' =>
+      let others := flat_map settings_of (before ++ after')%list in
+      match mon_thread c0 all others (own_start c0 others) p r with
+      | 0%N => mon_threads c0 all (before ++ [p])%list after' resps'
+      | n => n
+      end
+  | _, _ => 15%N
+  end.
+
+Definition mon_conc (c0 : config) (progs : list (list line_outcome)) (resps : list (list (option json)))
+           (panicked : bool) (seen : list config) (final : config) : N :=
+  if panicked then 1%N
+  else if negb (in_timeout_range c0) then 7%N
+  else
+    let all := flat_map settings_of progs in
+    match mon_threads c0 all [] progs resps with
+    | 0%N =>
+        if negb (forallb (cfg_allowed c0 all) seen) then 81%N
+        else if negb (cfg_allowed c0 all final && final_ok c0 progs final) then 82%N else 0%N
+    | n => n
+    end.
+
+(** schedule-independent part of the model: the answer to every line that does not read the status *)
+Fixpoint conc_corr (c0 : config) (prog : list line_outcome) (resps : list (option json)) : bool :=
+  match prog, resps with
+  | [], [] => true
+  | l :: prog', r :: resps' =>
+      (if reads_status l then true
+       else match fst (dispatch c0 (Env NoStats None) l) with
+            | Done m => resp_eqv (option_map render m) r
+            | Panic => false
+            end) && conc_corr c0 prog' resps'
+  | _, _ => false
+  end.
+
 Inductive case :=
-| CSeq (i : init) (ctx : bool) (ops : list op) (snap0 : option config) (cimpl : list cobs).
+| CSeq (i : init) (ctx : bool) (ops : list op) (snap0 : option config) (cimpl : list cobs)
+| CConc (i : init) (snap0 : config) (progs : list (list line_outcome)) (resps : list (list (option json)))
+        (panicked : bool) (seen : list config) (final : config).
 
 Definition check_case (c : case) : N :=
   match c with
@@ -344,6 +472,15 @@ Definition check_case (c : case) : N :=
       match mon with
       | 0%N => if (d0 =? 0)%N then 0%N else (1 + 4 * (1000 + d0))%N
       | n => ((if (d0 =? 0)%N then 0 else 1) + 2 + 4 * n)%N
+      end
+  | CConc i snap0 progs resps panicked seen final =>
+      let corr := opt_eqb cfg_eqb (cfg_init i) (Some snap0) &&
+                  (List.length progs =? List.length resps)%nat &&
+                  forallb (fun pr => conc_corr snap0 (fst pr) (snd pr)) (combine progs resps) in
+      let mon := mon_conc snap0 progs resps panicked seen final in
+      match mon with
+      | 0%N => if corr then 0%N else (1 + 4 * 2000)%N
+      | n => ((if corr then 0 else 1) + 2 + 4 * n)%N
       end
   end.
 
